@@ -1138,8 +1138,10 @@ func (v *VMValue) AttrGet(ctx *Context, name string) *VMValue {
 			p1 := v
 			p1x := a
 
+			visited := map[any]bool{v.Value: true} // __proto__ 链可能成环(如 x.__proto__ = x)，走过的字典不再进入
 			for {
-				if p1, ok = p1x.Load("__proto__"); ok && p1.TypeId == VMTypeDict {
+				if p1, ok = p1x.Load("__proto__"); ok && p1.TypeId == VMTypeDict && !visited[p1.Value] {
+					visited[p1.Value] = true
 					var exists bool
 					p1x = (*VMDictValue)(p1)
 					ret, exists = p1x.Load(name)
